@@ -27,7 +27,7 @@ FAMILIES: Dict[str, Dict[str, Any]] = {
     },
     "Failures": {
         "module": "MC_Failures",
-        "const": dict(REAL, TimingOn="TRUE", Modes='{"deferred"}', Conns='{"a", "b", "c", "d"}',
+        "const": dict(REAL, TimingOn="TRUE", Modes='{"deferred", "detach"}', Conns='{"a", "b", "c", "d"}',
                       MaxQ=1, MaxDeaths=2, MaxEnv=2, TickSteps="{}", MaxNow=0, AllowOpen="FALSE",
                       AllowFin="TRUE", AllowRst="FALSE", GenDepth=100, AnyW="TRUE"),
         "subst": {"Setup": "FSetup", "Alpha": "FAlpha"},
@@ -40,7 +40,7 @@ FAMILIES: Dict[str, Dict[str, Any]] = {
     },
     "FailuresDeferred": {
         "module": "MC_Failures",
-        "const": dict(REAL, TimingOn="TRUE", Modes='{"deferred"}', Conns='{"a", "b", "c", "d"}',
+        "const": dict(REAL, TimingOn="TRUE", Modes='{"deferred", "detach"}', Conns='{"a", "b", "c", "d"}',
                       MaxQ=1, MaxDeaths=2, MaxEnv=2, TickSteps="{}", MaxNow=0, AllowOpen="FALSE",
                       AllowFin="TRUE", AllowRst="FALSE", GenDepth=100, AnyW="TRUE"),
         "subst": {"Setup": "FSetup", "Alpha": "FAlpha"},
